@@ -35,7 +35,7 @@ META = {
     "rule": "a case is (validator, mode, connection strategy, sequence of (entry path, presentation)); distinct = distinct tuple; non-trivial = at least one request reached the authentication decision",
     "assumptions": [
         "credentials are UTF-8; presentations whose validity HTTP leaves open (two credential headers) are only judged for header removal",
-        "LDAP validator not exercised (needs a directory server)",
+        "the LDAP validator (real proxyauth.Ldap) talks to a stub of the ldap3 module that models a two-user directory and, like ldap3 with auto_bind, raises on a failed bind; the htpasswd file has one entry whose bcrypt check raises",
         "upstream peers answer every complete request at once; hooks complete immediately",
         "Proxy-Authorization sent *inside* an already authenticated CONNECT tunnel is end-to-end data and not judged",
         "option-change histories: the proxyauth option is changed between requests (rotated, validator kind switched, removed and set again); every request is judged by the configuration in force when it is sent; a tunnel authenticated before the change is not judged after it",
@@ -45,8 +45,52 @@ META = {
 
 # ------------------------------------------------------------------ validators (reference semantics)
 HT_USERS = {"bc": "pw", "sha": "p:q", "ü": "pä", "e": ""}
-VALIDATORS = ["single", "any", "htpasswd", "single_na", "single_emptypw", "single_colon"]
+# an entry the htpasswd parser accepts but whose check raises (bcrypt: "Invalid salt"): no password is valid for it
+HT_BROKEN = {"bad": "$2y$05$tooshort"}
+VALIDATORS = ["single", "any", "htpasswd", "ldap", "single_na", "single_emptypw", "single_colon"]
 _HT_DIR = None
+LDAP_DIRECTORY = {"lu": "lp", "ü": "pä"}
+LDAP_SPEC = "ldap:ldap.test:cn=admin:adminpw:ou=people"
+
+
+class FakeLdap3:
+    """stands in for the `ldap3` module, i.e. for the directory server behind it: the real `proxyauth.Ldap` validator
+    runs unchanged.  Like ldap3 with auto_bind=True, a bind with a wrong password *raises*."""
+
+    class BindError(Exception):
+        pass
+
+    class Server:
+        def __init__(self, url, port=None, use_ssl=False):
+            self.url = url
+
+    class Connection:
+        def __init__(self, server, user=None, password=None, auto_bind=False):
+            self.response = []
+            if user == "cn=admin":
+                ok = password == "adminpw"
+            else:
+                name = user[3:].split(",")[0] if user and user.startswith("cn=") else None
+                ok = name in LDAP_DIRECTORY and bool(password) and LDAP_DIRECTORY[name] == password
+            if auto_bind and not ok:
+                raise FakeLdap3.BindError("automatic bind not successful - invalidCredentials")
+
+        def search(self, base, flt):
+            name = flt[4:-1] if flt.startswith("(cn=") and flt.endswith(")") else None
+            self.response = [{"dn": "cn=%s,%s" % (name, base)}] if name in LDAP_DIRECTORY else []
+            return bool(self.response)
+
+    class utils:
+        class conv:
+            @staticmethod
+            def escape_filter_chars(s):
+                return "".join("\\%02x" % ord(c) if c in "\\*()\x00" else c for c in s)
+
+
+def install_fake_ldap():
+    from mitmproxy.addons import proxyauth
+
+    proxyauth.ldap3 = FakeLdap3
 
 
 def htpasswd_path():
@@ -69,6 +113,7 @@ def htpasswd_path():
                 lines.append("%s:%s" % (u, bcrypt.hashpw(p.encode(), b"$2b$04$abcdefghijklmnopqrstuu").decode()))
             else:
                 lines.append("%s:{SHA}%s" % (u, base64.b64encode(hashlib.sha1(p.encode("utf-8")).digest()).decode()))
+        lines += ["%s:%s" % kv for kv in HT_BROKEN.items()]
         with open(os.path.join(_HT_DIR, "htpasswd"), "w", encoding="utf-8") as f:
             f.write("\n".join(lines) + "\n")
     return os.path.join(_HT_DIR, "htpasswd")
@@ -76,13 +121,15 @@ def htpasswd_path():
 
 def option_value(v):
     return {"single": "u:p", "any": "any", "htpasswd": "@" + htpasswd_path(), "single_na": "ü:pä",
-            "single_emptypw": "u:", "single_colon": "u:p:q", "single2": "u:p2", "off": None}[v]
+            "single_emptypw": "u:", "single_colon": "u:p:q", "single2": "u:p2", "off": None, "ldap": LDAP_SPEC}[v]
 
 
 def ref_valid(v, user, pw):
     """does the configured validator accept (user, pw)?  (option syntax: user ':' password, first colon separates)"""
     if v == "any":
         return True
+    if v == "ldap":
+        return bool(user) and bool(pw) and LDAP_DIRECTORY.get(user) == pw
     if v == "htpasswd":
         return HT_USERS.get(user) == pw
     u, p = option_value(v).split(":", 1)
@@ -92,14 +139,16 @@ def ref_valid(v, user, pw):
 def pairs(v):
     """credential pairs by role for validator v: role -> (user, pw) or None when the role does not exist"""
     good = {"single": ("u", "p"), "any": ("x", "y"), "htpasswd": ("bc", "pw"), "single_na": ("ü", "pä"),
-            "single_emptypw": ("u", ""), "single_colon": ("u", "p:q"), "single2": ("u", "p2")}[v]
+            "single_emptypw": ("u", ""), "single_colon": ("u", "p:q"), "single2": ("u", "p2"), "ldap": ("lu", "lp")}[v]
     return {
         "valid": good,
-        "wrongpw": (good[0], good[1] + "x"),
+        "wrongpw": (good[0], good[1] + "x"),  # (ldap: the bind raises)
         "wronguser": (good[0] + "x", good[1]),
+        # credentials for which the validator's check *raises* instead of returning False
+        "validator_raises": {"htpasswd": ("bad", "x"), "ldap": ("lu", "nope")}.get(v),
         "colon": {"any": ("u", "p:q"), "htpasswd": ("sha", "p:q"), "single_colon": ("u", "p:q")}.get(v),
         "colon2": {"any": ("u", ":p::q:")}.get(v),
-        "nonascii": {"any": ("ü", "pä"), "htpasswd": ("ü", "pä"), "single_na": ("ü", "pä")}.get(v),
+        "nonascii": {"any": ("ü", "pä"), "htpasswd": ("ü", "pä"), "single_na": ("ü", "pä"), "ldap": ("ü", "pä")}.get(v),
         "emptypw": {"any": ("u", ""), "htpasswd": ("e", ""), "single_emptypw": ("u", "")}.get(v),
         "emptyuser": {"any": ("", "p")}.get(v),
     }
@@ -120,6 +169,7 @@ PRES = {
     "nonascii": ("nonascii", "{H}: Basic {T}\r\n"),
     "emptypw": ("emptypw", "{H}: Basic {T}\r\n"),
     "emptyuser": ("emptyuser", "{H}: Basic {T}\r\n"),
+    "validator_raises": ("validator_raises", "{H}: Basic {T}\r\n"),
     "scheme_lower": ("valid", "{H}: basic {T}\r\n"),
     "scheme_upper": ("valid", "{H}: BASIC {T}\r\n"),
     "name_lower": ("valid", "{h}: Basic {T}\r\n"),
@@ -139,7 +189,7 @@ PRES = {
 }
 P_SEQ = ["none", "valid", "wrongpw"]
 SOCKS_OFFERS = {"noauth_only": b"\x05\x01\x00", "userpass": b"\x05\x01\x02", "both": b"\x05\x02\x00\x02", "both_rev": b"\x05\x02\x02\x00"}
-SOCKS_CREDS = ["valid", "wrongpw", "wronguser", "colon", "nonascii", "emptypw"]
+SOCKS_CREDS = ["valid", "wrongpw", "wronguser", "validator_raises", "colon", "nonascii", "emptypw"]
 
 MODES = {
     "regular": "regular",
@@ -241,7 +291,7 @@ def cases(maxlen, thorough):
 
 
 TRANSITIONS = [["single", "single2"], ["single2", "single"], ["single", "any"], ["any", "single"], ["single", "htpasswd"], ["htpasswd", "single"],
-               ["htpasswd", "any"], ["single", "off", "single2"], ["htpasswd", "off", "single"]]
+               ["htpasswd", "any"], ["ldap", "single"], ["single", "ldap"], ["single", "off", "single2"], ["htpasswd", "off", "single"]]
 
 
 def history_cases(thorough):
@@ -314,6 +364,7 @@ def execute(case):
     v, mode = case["v"], case["mode"]
 
     def connect(vcur):
+        install_fake_ldap()
         return World(mode=MODES[mode], opts={"proxyauth": option_value(vcur), "connection_strategy": case["strategy"]},
                      addons=[ProxyAuth()], master_key="c20-proxyauth", auto_connect=True, snap=h1.http_snap)
 
@@ -416,11 +467,15 @@ def judge(case, obs, t: Tally, verbose=False):
         t.bad("accepted_iff_validator_accepts", {"path": "configure", "pw_colon": ":" in option_value(v).split(":", 1)[-1], "validator": v, "transport": "option"},
               case, "proxyauth=%r configures a validator" % option_value(v), obs["configure_error"])
         return
-    if obs.get("crash") or obs.get("errors") or not obs.get("finished"):
+    if obs.get("crash") or not obs.get("finished") or any("crashed" in e for e in obs.get("errors", [])):
         t.case(case, nontrivial=True, key=repr(case))
         t.bad("unauth_gets_407_or_401_or_socks_fail", dict(feats(case, *case["steps"][0]), internal_error=True), case,
               "no internal error", {k: obs.get(k) for k in ("crash", "errors", "finished")})
         return
+    for e in obs.get("errors", []):
+        # an addon hook that raised (e.g. the validator's check raising inside socks5_auth) is logged by the addon manager;
+        # the property is judged on what the client gets and what is forwarded, below
+        t.note("logged: " + e[:60])
     ups = upstream_requests(obs)
     reached = any(s.get("status") for s in obs["steps"])
     t.case(case if len(case["steps"]) == 3 else None, nontrivial=reached, key=repr(case))
